@@ -82,6 +82,7 @@ class Harness:
         self.store.clear()
         names = [chr(97 + i) for i in range(L)]
         ms = SymMgr(N, 0, L, names=names, with_cache=False, with_refs=False, tag='s')
+        ms.decl = 'choose'
         ms.assume_pre()
         assume_canon_real(ms)
         src = ms.install(self.B)
